@@ -20,6 +20,8 @@ from vcheck.core import Task, Violation
 ID = 'C20'
 LEVEL = 'exploration'
 BUDGET = {'quick': 45, 'thorough': 420}
+# deterministic sub-checks repeated in a `python -O` child (core.optimized_child)
+OPT_SUBS = ('fs', 'errno', 'last_bytes/family', 'tempfile/family')
 RULE = ('checksum: sizes {0,1,c-1,c,c+1,2c-1,2c,2c+1,3c} x chunk sizes c in '
         '{1,2,7,64,4096,65536, larger than the file, default} x 6 algorithms '
         'enumerated, plus random (size, chunk, algorithm); last_bytes: sizes '
